@@ -126,6 +126,20 @@ type cstore struct {
 	mu       sync.Mutex
 	failNext int
 	mono     bool
+	pending  uint64 // staged commit index: becomes durable with the next successful StoreLogs
+	staged   uint64
+}
+
+func (s *cstore) StageCommitIndex(i uint64) error {
+	s.mu.Lock()
+	s.pending = i
+	s.mu.Unlock()
+	return nil
+}
+func (s *cstore) GetCommitIndex() (uint64, error) {
+	s.mu.Lock()
+	defer s.mu.Unlock()
+	return s.staged, nil
 }
 
 func (s *cstore) IsMonotonic() bool { return s.mono }
@@ -142,7 +156,13 @@ func (s *cstore) StoreLogs(ls []*raft.Log) error {
 		x := *l
 		cp[i] = &x
 	}
-	return s.InmemStore.StoreLogs(cp)
+	err := s.InmemStore.StoreLogs(cp)
+	if err == nil {
+		s.mu.Lock()
+		s.staged = s.pending
+		s.mu.Unlock()
+	}
+	return err
 }
 func (s *cstore) StoreLog(l *raft.Log) error { return s.StoreLogs([]*raft.Log{l}) }
 
@@ -171,6 +191,9 @@ type cluster struct {
 	holdMs  map[[2]int]int  // responses on this directed pair (responder, requester) are held this long
 	litmus  bool
 	hbLong  bool
+	pv2     bool // every server runs protocol version 2
+	track   bool // commit-tracking log stores with RestoreCommittedLogs
+	slowFSM bool // some FSMs take a few virtual ms per Apply
 	delayMs int
 	dropPct int
 	dupPct  int
@@ -180,7 +203,15 @@ type cluster struct {
 	stopped bool
 }
 
-func sidOf(i int) raft.ServerID       { return raft.ServerID(strconv.Itoa(i)) }
+// idIsAddr: protocol version 2 requires a server's ID to be its address (set per case)
+var idIsAddr bool
+
+func sidOf(i int) raft.ServerID {
+	if idIsAddr {
+		return raft.ServerID(addrOf(i))
+	}
+	return raft.ServerID(strconv.Itoa(i))
+}
 func addrOf(i int) raft.ServerAddress { return raft.ServerAddress(strconv.Itoa(10 + i)) }
 
 func errCode(err error) int {
@@ -235,6 +266,10 @@ func (c *cluster) conf(i int, n *cnode) *raft.Config {
 	conf.MaxAppendEntries = 4
 	conf.NotifyCh = n.notify
 	conf.ShutdownOnRemove = false
+	if c.pv2 {
+		conf.ProtocolVersion = 2
+	}
+	conf.RestoreCommittedLogs = c.track
 	return conf
 }
 
@@ -316,6 +351,9 @@ func (c *cluster) startNode(n *cnode) {
 	n.life++
 	n.fsm = &cfsm{h: c.h, id: n.id, life: n.life, persist: time.Duration(c.rng.Intn(3)*c.rng.Intn(60)) * time.Millisecond}
 	n.batching = c.rng.Intn(2) == 0
+	if c.slowFSM && c.rng.Intn(2) == 0 {
+		n.fsm.slow = time.Duration(1+c.rng.Intn(3)) * time.Millisecond
+	}
 	n.notify = make(chan bool, 1)
 	go func(ch chan bool, id, life int) {
 		for v := range ch {
@@ -427,7 +465,11 @@ func (c *cluster) callWith(n *cnode, kind string, fn func(r *raft.Raft) error) {
 					}
 				}
 			case "b":
-				out.code = errCode(r.Barrier(20 * time.Millisecond).Error())
+				f := r.Barrier(20 * time.Millisecond)
+				out.code = errCode(f.Error())
+				if x, ok := f.(interface{ Index() uint64 }); ok && out.code == 0 {
+					out.idx = x.Index()
+				}
 			case "v":
 				out.idx = r.CurrentTerm() // the caller's term when the call is made
 				out.code = errCode(r.VerifyLeader().Error())
@@ -574,6 +616,12 @@ func runClusterCase(rng *rand.Rand, thorough bool, out *bufio.Writer, st *stats,
 		nsrv = 5
 	}
 	c := &cluster{rng: rng, h: h, blocked: map[[2]int]bool{}, holdMs: map[[2]int]int{}, delayMs: 2}
+	c.pv2 = rng.Intn(6) == 0
+	c.track = rng.Intn(4) == 0
+	c.slowFSM = rng.Intn(3) == 0
+	idIsAddr = c.pv2
+	defer func() { idIsAddr = false }()
+	st.Hist[fmt.Sprintf("flavour pv2=%v commit-tracking=%v slow-fsm=%v", c.pv2, c.track, c.slowFSM)]++
 	_, c.inj = raft.NewInmemTransportWithTimeout("inj", 80*time.Millisecond)
 	mono := rng.Intn(3) == 0
 	for i := 1; i <= nsrv; i++ {
@@ -620,6 +668,14 @@ func runClusterCase(rng *rand.Rand, thorough bool, out *bufio.Writer, st *stats,
 			}
 		case x < 50:
 			if l := c.leader(); l != nil {
+				if rng.Intn(2) == 0 { // a burst of writes with the barrier right behind them
+					for k, m := 0, 2+rng.Intn(5); k < m; k++ {
+						c.apply(l, "a")
+					}
+					if rng.Intn(2) == 0 {
+						synctest.Wait()
+					}
+				}
 				c.apply(l, "b")
 				st.Hist["barrier"]++
 			}
